@@ -655,4 +655,133 @@ theorem atomic_quoted (s : Bytes) (h : ∀ x ∈ s, x ≠ 39) : Atomic (quoted s
     rw [List.filter_eq_nil_iff]; intro x hx; simpa using h x hx
   simp [List.filter_cons, List.filter_append, this]
 
+/-! ## the literal `DeckOutput` state machine equals the two-stage writer model -/
+
+theorem writeSep_record (split : Bool) (rc : Nat) :
+    writeSep split true rc = (sepBefore split rc, rowAfter split rc - 1) := by
+  unfold writeSep sepBefore rowAfter
+  by_cases h : split = true ∧ 0 < rc ∧ rc % columns = 0
+  · have h' : (true = true ∧ split = true ∧ 0 < rc ∧ rc % columns = 0) := ⟨rfl, h⟩
+    simp [h, h']
+  · have h' : ¬ (true = true ∧ split = true ∧ 0 < rc ∧ rc % columns = 0) := fun hh => h hh.2
+    simp only [h, h', ↓reduceIte, List.nil_append]
+    by_cases h0 : 0 < rc <;> simp [h0]
+
+theorem rowAfter_pos (split : Bool) (rc : Nat) : 0 < rowAfter split rc := by
+  unfold rowAfter; split <;> omega
+
+/-- `row_count` after laying out `toks`. -/
+def layoutEnd (split : Bool) : Nat → List Bytes → Nat
+  | rc, [] => rc
+  | rc, _ :: ts => layoutEnd split (rowAfter split rc) ts
+
+/-- `default_count` when `end_record` is reached. -/
+def pendM : Nat → Vals → Nat
+  | dc, [] => dc
+  | dc, p :: r => if p.2 = .deck then pendM 0 r else pendM (dc + 1) r
+
+def hasDeck (vals : Vals) : Bool := vals.any fun p => p.2 == .deck
+
+theorem layout_append (split : Bool) : ∀ (A B : List Bytes) (rc : Nat),
+    layout split rc (A ++ B) = layout split rc A ++ layout split (layoutEnd split rc A) B := by
+  intro A
+  induction A with
+  | nil => intro B rc; rfl
+  | cons t ts ih => intro B rc; simp only [List.cons_append, layout, layoutEnd, ih, List.append_assoc]
+
+theorem layoutEnd_pos (split : Bool) : ∀ (toks : List Bytes) (rc : Nat), toks ≠ [] → 0 < layoutEnd split rc toks := by
+  intro toks
+  induction toks with
+  | nil => intro rc h; exact absurd rfl h
+  | cons t ts ih =>
+    intro rc _
+    simp only [layoutEnd]
+    cases ts with
+    | nil => exact rowAfter_pos split rc
+    | cons u us => exact ih _ (by simp)
+
+/-- `writeValsM` (interleaved `stash_default` / `write` with `write_sep`) is the layout of
+the emitted tokens; it leaves the pending count `pendM` and the row count `layoutEnd`. -/
+theorem writeValsM_eq (fmt : Bytes → Bytes) (split : Bool) : ∀ (vals : Vals) (dc rc : Nat) (any : Bool),
+    writeValsM fmt split true dc rc vals =
+      (layout split rc (emitToks fmt false any dc vals), pendM dc vals,
+        layoutEnd split rc (emitToks fmt false any dc vals)) := by
+  intro vals
+  induction vals with
+  | nil => intro dc rc any; simp [writeValsM, emitToks, layout, pendM, layoutEnd]
+  | cons p r ih =>
+    intro dc rc any
+    obtain ⟨v, st⟩ := p
+    by_cases hd : st = .deck
+    · subst hd
+      have hra : ∀ x, rowAfter split x - 1 + 1 = rowAfter split x := by
+        intro x; have := rowAfter_pos split x; omega
+      by_cases h0 : dc = 0
+      · subst h0
+        simp only [writeValsM, ↓reduceIte, writeSep_record, hra, ih 0 _ true, emitToks, pendM,
+          List.nil_append, layout, layoutEnd, List.append_assoc]
+      · simp only [writeValsM, ↓reduceIte, h0, writeSep_record, hra, ih 0 _ true, emitToks, pendM,
+          List.singleton_append, layout, layoutEnd, List.append_assoc]
+    · simp only [writeValsM, hd, ↓reduceIte, ih (dc + 1) rc any, emitToks, pendM]
+
+theorem emitToks_flush (fmt : Bytes → Bytes) : ∀ (vals : Vals) (any : Bool) (dc : Nat),
+    emitToks fmt true any dc vals = emitToks fmt false any dc vals ++
+      (if (any || hasDeck vals) = true ∧ pendM dc vals ≠ 0 then [starTok (pendM dc vals)] else []) := by
+  intro vals
+  induction vals with
+  | nil => intro any dc; cases any <;> simp [emitToks, hasDeck, pendM]
+  | cons p r ih =>
+    intro any dc
+    obtain ⟨v, st⟩ := p
+    by_cases hd : st = .deck
+    · subst hd
+      simp only [emitToks, ↓reduceIte, ih true 0, hasDeck, List.any_cons, beq_self_eq_true, Bool.true_or,
+        Bool.or_true, pendM, List.append_assoc, List.cons_append]
+    · have hb : (st == Status.deck) = false := by simpa using hd
+      simp only [emitToks, hd, ↓reduceIte, ih any (dc + 1), hasDeck, List.any_cons, hb, Bool.false_or, pendM]
+      rfl
+
+theorem emitToks_nil_iff (fmt : Bytes → Bytes) : ∀ (vals : Vals) (any : Bool) (dc : Nat),
+    (emitToks fmt false any dc vals = []) ↔ hasDeck vals = false := by
+  intro vals
+  induction vals with
+  | nil => intro any dc; simp [emitToks, hasDeck]
+  | cons p r ih =>
+    intro any dc
+    obtain ⟨v, st⟩ := p
+    by_cases hd : st = .deck
+    · subst hd
+      simp [emitToks, hasDeck]
+    · have hb : (st == Status.deck) = false := by simpa using hd
+      simp only [emitToks, hd, ↓reduceIte, hasDeck, List.any_cons, hb, Bool.false_or]
+      exact ih any (dc + 1)
+
+/-- **The literal mirror of `DeckRecord::write` / `DeckOutput` writes exactly the bytes of
+the two-stage model** (`layout ∘ emitToks`) the theorems are about, for both shapes of
+`end_record`. -/
+theorem writeRecordM_eq (fmt : Bytes → Bytes) (flush split : Bool) (r : List Vals) :
+    (writeRecordM fmt flush split r).1 = writeRecord fmt flush split r := by
+  unfold writeRecordM writeRecord writtenRecordText
+  rw [writeValsM_eq fmt split r.flatten 0 0 false]
+  simp only
+  cases flush with
+  | false => simp
+  | true =>
+    simp only [↓reduceIte]
+    rw [emitToks_flush fmt r.flatten false 0]
+    simp only [Bool.false_or]
+    by_cases hdk : hasDeck r.flatten = true
+    · have hne : emitToks fmt false false 0 r.flatten ≠ [] := by
+        intro h; rw [(emitToks_nil_iff fmt r.flatten false 0).mp h] at hdk; cases hdk
+      have hpos := layoutEnd_pos split _ 0 hne
+      by_cases hp : pendM 0 r.flatten = 0
+      · simp [hp, hdk]
+      · have hp' : 0 < pendM 0 r.flatten := by omega
+        simp only [hp', hpos, and_self, ↓reduceIte, hdk, hp, ne_eq, not_false_eq_true, layout_append,
+          writeSep_record, layout, List.append_nil, List.append_assoc]
+        simp
+    · have hdk' : hasDeck r.flatten = false := by simpa using hdk
+      have he := (emitToks_nil_iff fmt r.flatten false 0).mpr hdk'
+      simp [he, hdk', layoutEnd]
+
 end OpmVerif.DeckWrite
